@@ -439,7 +439,7 @@ theorem object_declarator_may_be_initialized (d : Decl) (hwf : wfType d = true) 
 /-- … so every declaration C11 derives from these pieces is accepted with its own tree: specifiers, then init-declarators whose
 initialized declarators declare objects, then `;` - or one function declarator and a body. -/
 theorem valid_declaration_accepted (ss : List Spec) (ids : List ID) (rest : List Tok) (hss : ss ≠ []) (hne : ids ≠ [])
-    (hids : ∀ x ∈ ids, x.init.isSome = true → wfType x.d = true ∧ isFunDef x.d = false) :
+    (hos : okSpecs ss = true) (hids : ∀ x ∈ ids, x.init.isSome = true → wfType x.d = true ∧ isFunDef x.d = false) :
     declaration (pp (if hasTypedef ss then .typedefDecl ss ids else .varDecl ss ids) ++ rest) =
       some (if hasTypedef ss then .typedefDecl ss ids else .varDecl ss ids, rest) := by
   apply declaration_parse_pp
@@ -452,8 +452,55 @@ theorem valid_declaration_accepted (ss : List Spec) (ids : List ID) (rest : List
       obtain ⟨h1, h2⟩ := hids x hx (by simp [hi])
       simp [okID, object_declarator_may_be_initialized x.d h1 h2]
   by_cases htd : hasTypedef ss = true
-  · simp [htd, acc, hok, hss, hne]
-  · simp [htd, acc, hok, hss, hne]
+  · simp [htd, acc, hok, hss, hne, hos]
+  · simp [htd, acc, hok, hss, hne, hos]
+
+/-- **The specifiers come in any order (6.7p1)**: a specifier list with ONE type specifier - a keyword or a tag declaration - anywhere among
+any number of other specifiers (storage classes, qualifiers, function and alignment specifiers) before AND after it is a list the loop
+delivers; so `struct S { … } static const x;` is accepted like `static const struct S { … } x;`. -/
+theorem one_type_specifier_anywhere (before after : List Spec) (t : Spec) (hb : noType before = true) (ha : noType after = true) :
+    okSpecs (before ++ t :: after) = true := by
+  induction before with
+  | nil =>
+    cases t with
+    | tagd n => simpa [okSpecs] using ha
+    | kw n | tdef | ty n =>
+      simp only [List.nil_append, okSpecs]
+      clear hb
+      induction after with
+      | nil => rfl
+      | cons a as ih => cases a <;> simp_all [okSpecs, noType]
+  | cons b bs ih => cases b <;> simp_all [okSpecs, noType]
+
+theorem noType_with_tag (bs post : List Spec) (n : Nat) : noType (bs ++ .tagd n :: post) = false := by
+  induction bs with
+  | nil => rfl
+  | cons b bs ih => cases b <;> simp [noType, ih]
+
+/-- … and a type specifier AFTER a tag declaration is what the loop stops at (`struct x { int y; } int z;` is diagnosed: the parser's own
+test 0434): no accepted declaration has one -/
+theorem no_type_specifier_after_tag_declaration (ts : List Tok) (r : R) (rest : List Tok) (h : declaration ts = some (r, rest))
+    (pre post : List Spec) (n : Nat) (t : Spec)
+    (hs : (match r with | .incomplete ss | .typedefDecl ss _ | .varDecl ss _ | .funDef ss _ _ => ss) = pre ++ .tagd n :: post) (ht : t ∈ post) :
+    (∃ k, t = .kw k) ∨ t = .tdef := by
+  have ha := (declaration_parse_sound ts r rest h).2
+  have hk : okSpecs (pre ++ .tagd n :: post) = true := by
+    rw [← hs]
+    cases r <;> simp only [acc, Bool.and_eq_true] at ha <;> simp [ha]
+  have hpost : noType post = true := by
+    clear hs
+    induction pre with
+    | nil => simpa [okSpecs] using hk
+    | cons b bs ih => cases b <;> simp_all [okSpecs, noType_with_tag]
+  clear hk hs
+  induction post with
+  | nil => simp at ht
+  | cons a as ih =>
+    cases a with
+    | kw k => simp only [noType] at hpost; rcases List.mem_cons.mp ht with rfl | h' ; exact .inl ⟨k, rfl⟩; exact ih h' hpost
+    | tdef => simp only [noType] at hpost; rcases List.mem_cons.mp ht with rfl | h' ; exact .inr rfl; exact ih h' hpost
+    | ty k => simp [noType] at hpost
+    | tagd k => simp [noType] at hpost
 
 /-- **Translation units (6.9)**: every sequence of accepted external declarations (declarations, function definitions, stray `;`) is parsed
 back to exactly that sequence, to the end of the text - with the number of declarations as fuel (the C++ loops until the end-of-file token). -/
@@ -495,6 +542,17 @@ example :
     (declaration [.sp 0, .dcl (.ident "x"), .comma, .dcl (.fn (.ident "f") .nil false), .body 0]).isNone = true ∧
     (declaration [.sp 0, .dcl (.ptr [] (.fn (.ident "f") .nil false)), .eq, .ini 0, .body 0]).isNone = true := by
   simp [declaration, specs, idl, initOK, isFunDef, fnNextToName, unparen, hasTypedef]
+
+/-- non-vacuity: `struct S { … } static const s;`, `struct T { … } typedef TT;`, `static struct S { … } const *p;` accepted; `struct x { … } int z;`
+and two tag declarations refused -/
+example :
+    (declaration [.tagd 0, .sp 0, .sp 1, .dcl (.ident "s"), .semi]).isSome = true ∧
+    (declaration [.tagd 0, .tdef, .dcl (.ident "TT"), .semi]).isSome = true ∧
+    (declaration [.sp 0, .tagd 0, .sp 1, .dcl (.ptr [] (.ident "p")), .semi]).isSome = true ∧
+    (declaration [.ty 0, .tagd 0, .dcl (.ident "z"), .semi]).isSome = true ∧
+    (declaration [.tagd 0, .ty 0, .dcl (.ident "z"), .semi]).isNone = true ∧
+    (declaration [.tagd 0, .tagd 1, .dcl (.ident "z"), .semi]).isNone = true := by
+  simp [declaration, specs, specsT, idl, hasTypedef]
 
 end PsycheModel.Declaration
 
